@@ -73,7 +73,7 @@ inline void put_cx(Line &l, const Q &re, const Q &im) { l << re; l << im; }
 // family 17: the ops of property C17 (every adapter incl. the block adapter, as_preconditioner / amg row order)
 inline void gen_adapter_ops(Rng &rng, const Opts &o, std::vector<std::string> &lines, int family) {
     long N = o.cases > 0 ? o.cases : (o.thorough() ? 12000 : 1200);
-    static const std::vector<int> fam13 = { 3, 4, 5, 6, 7, 3, 5, 7 }, fam17 = { 0, 1, 2, 3, 8, 9, 10, 11, 12, 13, 0, 4 };
+    static const std::vector<int> fam13 = { 3, 4, 5, 6, 7, 3, 5, 7, 14 }, fam17 = { 0, 1, 2, 3, 8, 9, 10, 11, 12, 13, 0, 4 };
     const std::vector<int> &menu = family == 13 ? fam13 : fam17;
     static const std::vector<std::string> idx = { "int", "long", "unsigned", "size_t", "ptrdiff_t" };
     const std::vector<Q> coefs = { Q(0), Q(1), Q(-1), Q::frac(2, 3), Q(2) };
@@ -109,6 +109,13 @@ inline void gen_adapter_ops(Rng &rng, const Opts &o, std::vector<std::string> &l
             else { long n = nb * b + rng.range(0, b - 1), m = mb * b + rng.range(0, b - 1); A = gen_sparse(rng, n, m, 30); } // mostly indivisible
             if (rng.coin(1, 6)) A = unsort(rng, A, rng.coin());       // outside the adapter's domain (sorted rows): model correspondence only
             l << (which == 5 ? "ad_hybrid" : "ad_block") << b << A << coef() << gen_vec(rng, A.m) << coef() << gen_vec(rng, A.n);
+        } else if (which == 14) {                                // block adapter at the Eigen block value type, integer data
+            long b = rng.range(2, 4), nb = rng.range(0, 5), mb = rng.coin(1, 3) ? rng.range(0, 5) : nb;
+            Mat A = rng.coin(1, 8) ? gen_sparse(rng, nb * b + rng.range(0, b - 1), mb * b, 30, true)
+                                   : gen_block_structured(rng, nb, mb, b, (int)rng.range(10, 70), (int)rng.range(0, 100), true);
+            if (rng.coin(1, 8)) A = unsort(rng, A, false);
+            static const std::vector<Q> ic = { Q(0), Q(1), Q(-1), Q(2), Q(3) };
+            l << "ad_block_eigen" << b << A << rng.pick(ic) << gen_vec(rng, A.m, true) << rng.pick(ic) << gen_vec(rng, A.n, true);
         } else if (which == 6) {                                 // unblock
             long b = rng.range(2, 4), nb = rng.range(0, 5), mb = rng.coin(1, 3) ? rng.range(0, 5) : nb;
             Mat S = gen_sparse(rng, nb, mb, (int)rng.range(10, 70)); if (rng.coin(1, 4)) S = unsort(rng, S, false);
@@ -154,6 +161,7 @@ inline void gen_adapter_ops(Rng &rng, const Opts &o, std::vector<std::string> &l
     if (family == 13) {
         lines.push_back("ad_complex 1 2 1 0 1 1 2 1 0 0 0");                    // not square
         lines.push_back("ad_hybrid 3 3 3 0 0 0 1 2 1 1 0 3 0 0 0");             // x too short
+        lines.push_back("ad_block_eigen 2 2 2 1 0 1/2 1 1 1 1 2 1 1 0 2 0 0");  // non-integer entry
     } else {
         lines.push_back("ad_tuple int 2 3 0 1 2 2 0 5 2 1 1 2 1 1");            // column 5 in a 2 x 2 matrix
         lines.push_back("ad_tuple short 1 2 0 1 1 0 1 1 1 1");                  // unknown index type
